@@ -363,6 +363,18 @@ pub fn case(ctx: &mut Ctx, idx: u64) {
             (mc.text.into_bytes(), mc.tag)
         }
     };
+    // ---- slider-curve separator damage (round 10): one text case in eight gets a lost point / doubled or dangling `|`
+    // in one slider's curve field.  Own random stream, so every other case keeps the bytes it had before.
+    let mut bytes = bytes;
+    if !small && kind >= 2 && kind != 6 && kind != 7 {
+        let mut r2 = Rng::for_case(ctx.seed, "C06-curve", idx);
+        if r2.chance(0.125) {
+            if let Some(t) = std::str::from_utf8(&bytes).ok().and_then(|s| damage_curve(&mut r2, s)) {
+                bytes = t.into_bytes();
+                ctx.count("class:slider-curve-separator-damage");
+            }
+        }
+    }
     ctx.count(&format!("src:{}", tag.split(':').next().unwrap_or("x")));
     let input_repr = match std::str::from_utf8(&bytes) {
         Ok(s) => truncate(s, 60_000),
@@ -443,6 +455,39 @@ pub fn case(ctx: &mut Ctx, idx: u64) {
         drive_sorters(ctx, &mut rng);
     }
     ctx.sample(|| format!("src={tag} bytes={} mode={:?} objects={} timing={} ", bytes.len(), map.mode, map.hit_objects.len(), map.timing_points.len()));
+}
+
+/// Damages the `|`-separated curve field of one slider line below `[HitObjects]`; `None` if the text has no such line.
+fn damage_curve(rng: &mut Rng, text: &str) -> Option<String> {
+    let lines: Vec<&str> = text.split('\n').collect();
+    let start = lines.iter().position(|l| l.trim() == "[HitObjects]")? + 1;
+    let cands: Vec<usize> = (start..lines.len()).filter(|&i| lines[i].split(',').nth(5).is_some_and(|c| c.contains('|'))).collect();
+    if cands.is_empty() {
+        return None;
+    }
+    let li = cands[rng.usize_below(cands.len())];
+    let mut fields: Vec<String> = lines[li].split(',').map(str::to_string).collect();
+    let mut toks: Vec<String> = fields[5].split('|').map(str::to_string).collect();
+    match rng.below(5) {
+        0 => toks.insert(1 + rng.usize_below(toks.len()), String::new()), // doubled separator (also at the very end)
+        1 => toks.push(String::new()),                                       // dangling separator
+        2 => {
+            let k = 1 + rng.usize_below(toks.len() - 1); // a point (or a later path-type letter) lost, separators kept
+            toks[k].clear();
+        }
+        3 => toks.insert(0, String::new()), // leading separator
+        _ => {
+            let k = rng.usize_below(toks.len()); // several points lost in a row
+            for t in toks.iter_mut().skip(k).take(3) {
+                t.clear();
+            }
+        }
+    }
+    fields[5] = toks.join("|");
+    let new_line = fields.join(",");
+    let mut out: Vec<&str> = lines.clone();
+    out[li] = &new_line;
+    Some(out.join("\n"))
 }
 
 thread_local! {
